@@ -96,8 +96,9 @@ namespace foonathan
 
                 auto fence  = detail::debug_fence_size;
                 auto offset = detail::align_offset(stack.top() + fence, alignment);
-                if (!stack.top()
-                    || (fence + offset + size + fence > std::size_t(block_end(cur_) - stack.top())))
+                // written so that a huge size cannot wrap the sum around
+                auto remaining = stack.top() ? std::size_t(block_end(cur_) - stack.top()) : 0u;
+                if (!stack.top() || size > remaining || fence + offset + fence > remaining - size)
                     FOONATHAN_THROW(out_of_fixed_memory(info(), size));
                 return stack.allocate_unchecked(size, offset);
             }
